@@ -233,3 +233,73 @@ def realise_facet(item):
     else:
         raise ValueError(term)
     return {"form": form, "exact_ok": rule == "exact", "case": case, "gdim": td, "tdim": td}
+
+
+EXPR_POINTS = {
+    "interval": [[Fr(1, 4)], [Fr(1, 2)], [Fr(1)]],
+    "triangle": [[Fr(1, 4), Fr(1, 4)], [Fr(1, 2), Fr(1, 4)], [Fr(0), Fr(1)]],
+    "quadrilateral": [[Fr(1, 4), Fr(1, 2)], [Fr(1), Fr(1, 4)], [Fr(1, 2), Fr(1, 2)]],
+    "tetrahedron": [[Fr(1, 4), Fr(1, 4), Fr(1, 4)], [Fr(1, 2), Fr(0), Fr(1, 4)]],
+    "hexahedron": [[Fr(1, 4), Fr(1, 2), Fr(1, 2)], [Fr(1), Fr(1, 4), Fr(0)]],
+    "vertex": [[]],
+}
+
+
+def realise_expr(item):
+    """ECASE of FormSpace.tla -> (UFL expression, reference points)."""
+    ensure_repo_on_path()
+    import basix
+    import basix.ufl as bu
+    import ufl
+    from ufl import dot, grad, outer, sym
+
+    case = item["case"]
+    cell, ek, term, pk, geom = (case[k] for k in ("cell", "elem", "term", "pts", "geom"))
+    td = TDIM[cell]
+    gd = td + 1 if geom == "manifold" else td
+    dom = ufl.Mesh(bu.element("Lagrange", cell, 1, shape=(gd,)))
+    V = ufl.FunctionSpace(dom, make_element(ek, cell, gd))
+    u = ufl.TrialFunction(V)          # an Argument; expressions accept one
+    f = ufl.Coefficient(V)
+    x, n = ufl.SpatialCoordinate(dom), ufl.FacetNormal(dom)
+
+    def coef(kind):
+        return ufl.Coefficient(ufl.FunctionSpace(dom, make_element(kind, cell, gd)))
+
+    if term == "u":
+        e = u
+    elif term == "gradu":
+        e = grad(u)
+    elif term == "fgradu":
+        e = dot(coef("vP1"), grad(u))
+    elif term == "symgrad":
+        e = sym(grad(u))
+    elif term == "x":
+        e = x
+    elif term == "n":
+        e = n
+    elif term == "f":
+        e = f
+    elif term == "gradf":
+        e = grad(f)
+    elif term == "cgradf":
+        e = dot(ufl.Constant(dom, shape=(gd, gd)), grad(f))
+    elif term == "hessf":
+        e = grad(grad(f))
+    elif term == "absf":
+        e = abs(f) * x[0] + ufl.max_value(f, 1)
+    elif term == "fu":
+        e = coef("P1") * u
+    elif term == "outer":
+        e = outer(f, f)
+    else:
+        raise ValueError(term)
+    if pk == "cell":
+        pts = EXPR_POINTS[cell]
+    elif pk == "facet":
+        pts = EXPR_POINTS[FACET_CELL[cell]][:2]
+    else:
+        el2 = basix.create_element(basix.ElementFamily.P, basix.CellType[cell], 2, basix.LagrangeVariant.equispaced)
+        pts = [[Fr(float(c)).limit_denominator(64) for c in p] for p in el2.points]
+    P = np.array([[float(c) for c in p] for p in pts], dtype=np.float64).reshape(len(pts), len(pts[0]))
+    return {"expr": e, "points": P, "case": case}
